@@ -1,0 +1,67 @@
+//! Verification instrumentation (compiled only with the cargo feature `verif_hooks`).
+//!
+//! Thread-local step counters ticked by the tokenizers, the parser loops, `eval` and every
+//! evaluator loop body, plus an optional budget: when armed, the tick that exceeds the budget
+//! panics with a recognisable payload, so a runaway loop becomes an observable event instead
+//! of a hang. Nothing here is compiled, and no call site exists, when the feature is off.
+use std::cell::Cell;
+
+pub const LEX: usize = 0;
+pub const PARSE: usize = 1;
+pub const EVAL: usize = 2;
+pub const LOOP: usize = 3;
+
+pub const BUDGET_EXCEEDED: &str = "verif_hooks: step budget exceeded";
+
+thread_local! {
+    static COUNTERS: [Cell<u64>; 4] = [Cell::new(0), Cell::new(0), Cell::new(0), Cell::new(0)];
+    static BUDGET: Cell<u64> = Cell::new(0);
+}
+
+/// Counters since the last `arm`/`reset`: lexing, parsing, evaluation, evaluator-loop steps.
+#[derive(Debug, Clone, Copy, PartialEq, Eq, Default)]
+pub struct Counters {
+    pub lex: u64,
+    pub parse: u64,
+    pub eval: u64,
+    pub loops: u64,
+}
+
+impl Counters {
+    pub fn total(&self) -> u64 {
+        self.lex + self.parse + self.eval + self.loops
+    }
+}
+
+/// Reset the counters of this thread and set the budget (0 = count only, never panic).
+pub fn arm(budget: u64) {
+    COUNTERS.with(|c| c.iter().for_each(|x| x.set(0)));
+    BUDGET.with(|b| b.set(budget));
+}
+
+/// Reset the counters and remove the budget.
+pub fn reset() {
+    arm(0);
+}
+
+pub fn read() -> Counters {
+    COUNTERS.with(|c| Counters {
+        lex: c[LEX].get(),
+        parse: c[PARSE].get(),
+        eval: c[EVAL].get(),
+        loops: c[LOOP].get(),
+    })
+}
+
+#[inline]
+pub(crate) fn tick(kind: usize) {
+    let total = COUNTERS.with(|c| {
+        c[kind].set(c[kind].get() + 1);
+        c[0].get() + c[1].get() + c[2].get() + c[3].get()
+    });
+    let budget = BUDGET.with(|b| b.get());
+    if budget != 0 && total > budget {
+        BUDGET.with(|b| b.set(0));
+        panic!("{}", BUDGET_EXCEEDED);
+    }
+}
